@@ -15,6 +15,7 @@ import (
 	"sort"
 	"strconv"
 	"strings"
+	"sync"
 	"time"
 
 	"golang.org/x/tools/go/ssa"
@@ -319,6 +320,7 @@ func (r *Report) finish() int {
 	expected := loadExpected(r.Verif, r.Prop)
 	exit := 0
 	violations := 0
+	staleUncounted := 0
 	discharged, total := 0, 0
 	var lines []string
 	var oblEv []map[string]any
@@ -370,8 +372,13 @@ func (r *Report) finish() int {
 			if staleFunc(sr.Name) {
 				// part of this function's contract was left out (it names state the code no longer has): what its
 				// remaining clauses say cannot be trusted either way
-				lines = append(lines, fmt.Sprintf("note: %s fails, but part of the contract of its function was left out as out of date: not counted", sr.Name))
-				continue
+				// ... unless the refutation replays on the real code: a failing input is a violation whatever the state
+				// of the contracts
+				if rr := r.replay(o, sr); !rr.Confirmed {
+					lines = append(lines, fmt.Sprintf("note: %s fails, but part of the contract of its function was left out as out of date and no failing input was found: not counted", sr.Name))
+					staleUncounted++
+					continue
+				}
 			}
 			if sr.Status == "solver-disagreement" {
 				lines = append(lines, fmt.Sprintf("BROKEN: the solvers disagree on %s (%s): nothing is concluded from it", sr.Name, sr.Detail))
@@ -609,8 +616,16 @@ func (r *Report) finish() int {
 		for _, k := range staleContractClauses {
 			fmt.Println("note: contract clause left out (out of date): " + k)
 		}
-		if exit == 0 {
-			fmt.Printf("BROKEN: %d contract clause(s) name a field or method that the code no longer has, and nothing that remains fails: the contracts are out of date\n", len(staleContractClauses))
+		// a loop invariant is a proof aid, not a statement of the property: when the invariant left out named a
+		// vanished loop variable and every other obligation of its function is still discharged, nothing is missing
+		onlyAids := staleUncounted == 0
+		for _, k := range staleContractClauses {
+			if !strings.Contains(k, " names loop local ") {
+				onlyAids = false
+			}
+		}
+		if exit == 0 && !onlyAids {
+			fmt.Printf("BROKEN: %d contract clause(s) name a field, method or loop variable that the code no longer has, and nothing that remains fails: the contracts are out of date\n", len(staleContractClauses))
 			exit = 2
 		}
 	}
@@ -1139,6 +1154,19 @@ var genFuncRe = regexp.MustCompile(`^func (\w+)\(`)
 
 // staleContractClauses: clauses dropped by the second load (reported at the end of the run).
 var staleContractClauses []string
+
+var staleMu sync.Mutex
+
+func noteStaleClause(k string) {
+	staleMu.Lock()
+	defer staleMu.Unlock()
+	for _, x := range staleContractClauses {
+		if x == k {
+			return
+		}
+	}
+	staleContractClauses = append(staleContractClauses, k)
+}
 
 // staleFunc: the obligation belongs to a function part of whose contract was dropped.
 func staleFunc(oblName string) bool {
